@@ -635,6 +635,9 @@ class TermBuilder:
                     return base[3][int(t[3])]
             if base and base[0] == 'tuple' and t[3].isdigit() and int(t[3]) < len(base[1]):
                 return base[1][int(t[3])]
+            # captured variable of a closure value built in this body (closure bodies inlined by a normal form)
+            if base and base[0] == 'closure' and t[3].isdigit() and int(t[3]) < len(base[2]):
+                return base[2][int(t[3])]
             # checked arithmetic: (AddWithOverflow(a, b)).0 -> Add(a, b)
             if base and base[0] == 'binop' and base[1].endswith('WithOverflow') and t[3] == '0':
                 return ('binop', base[1][:-len('WithOverflow')], base[2], base[3])
